@@ -124,7 +124,9 @@ func (r *renderer) item(it *Item, parent, depth int) int {
 		r.expr(it.Attr.Expr, n.ID, depth)
 		n.Value.End = r.off()
 		n.Range.End = r.off()
-		if r.lay.n(6) == 1 {
+		// (no comment behind a heredoc: the line of the closing marker must hold
+		// nothing else, or the heredoc swallows the rest of the file)
+		if r.lay.n(6) == 1 && it.Attr.Expr != nil && it.Attr.Expr.K != "heredoc" {
 			r.b.WriteString(" # tráiling ✓")
 		}
 		r.b.WriteString("\n")
